@@ -223,6 +223,84 @@ def connectFull {S : Type} (parseIp : String → Option String) (lookup : String
     | Option.none => Option.none
     | some d => some { result := d.result, lookups := (resolve parseIp lookup r).lookups, tried := d.tried }
 
+/-! ## Construction paths (`Connector`, `Resolver`, `TcpConnector`, the TLS connector factories)
+
+Every connector comes as a *factory* (`Connector::new(resolver)`, `Resolver::custom(r)`, `TcpConnector`,
+`TlsConnector::new(config)`) from which a *service* is obtained either by the inherent `service()`
+method or through `ServiceFactory::new_service` (what `actix-web` / `awc` and service pipelines use);
+factories and services are `Clone`.  `κ` is the configuration carried along: the resolver for
+`Connector` / `Resolver`, the TLS client configuration for the TLS connectors, nothing for
+`TcpConnector`. -/
+
+structure Factory (κ : Type) where
+  cfg : κ
+
+structure Service (κ : Type) where
+  cfg : κ
+
+/-- `Connector::new` / `Resolver::custom` / `TlsConnector::new` -/
+def Factory.new {κ : Type} (k : κ) : Factory κ := { cfg := k }
+/-- `impl Clone` of a factory -/
+def Factory.clone {κ : Type} (f : Factory κ) : Factory κ := { cfg := f.cfg }
+/-- the inherent `service()` method: the service gets (a clone of) the factory's configuration -/
+def Factory.service {κ : Type} (f : Factory κ) : Service κ := { cfg := f.cfg }
+/-- `ServiceFactory::new_service`: `ok(self.service())` -/
+def Factory.newService {κ : Type} (f : Factory κ) : Service κ := f.service
+/-- `impl Clone` of a service -/
+def Service.clone {κ : Type} (s : Service κ) : Service κ := { cfg := s.cfg }
+
+/-- the ways the harness obtains a service from a configuration -/
+inductive Path where
+  /-- `X::new(cfg).service()` -/
+  | s
+  /-- `ServiceFactory::new_service(&X::new(cfg), ())` -/
+  | f
+  /-- `X::new(cfg).clone().service()` -/
+  | cs
+  /-- `new_service` on a clone of the factory -/
+  | cf
+  /-- `service().clone()` -/
+  | sc
+  /-- `new_service(..).clone()` -/
+  | fc
+  /-- the service constructed directly from the configuration (`ResolverService::custom(r)`,
+  `TlsConnector::service(config)`) -/
+  | k
+  /-- … and cloned -/
+  | kc
+  /-- `XService::default()` -/
+  | d
+  /-- `X::default().service()` -/
+  | ds
+  /-- `new_service` on `X::default()` -/
+  | df
+deriving DecidableEq, Repr
+
+/-- does the path start from `Default::default()` rather than from a given configuration? -/
+def Path.isDefault : Path → Bool
+  | .d | .ds | .df => true
+  | _ => false
+
+/-- the service a path yields from configuration `k` (`dflt` = what `Default` gives) -/
+def Path.build {κ : Type} (dflt : κ) (p : Path) (k : κ) : Service κ :=
+  match p with
+  | .s => (Factory.new k).service
+  | .f => (Factory.new k).newService
+  | .cs => (Factory.new k).clone.service
+  | .cf => (Factory.new k).clone.newService
+  | .sc => (Factory.new k).service.clone
+  | .fc => (Factory.new k).newService.clone
+  | .k => { cfg := k }
+  | .kc => (Service.mk k).clone
+  | .d => { cfg := dflt }
+  | .ds => (Factory.new dflt).service
+  | .df => (Factory.new dflt).newService
+
+def parsePath : String → Option Path
+  | "s" => some .s | "f" => some .f | "cs" => some .cs | "cf" => some .cf | "sc" => some .sc | "fc" => some .fc
+  | "k" => some .k | "kc" => some .kc | "d" => some .d | "ds" => some .ds | "df" => some .df
+  | _ => none
+
 /-! ## TLS connector step -/
 
 inductive TlsOutcome where
